@@ -6,6 +6,8 @@ package memreg
 import (
 	"bytes"
 	"context"
+	"crypto/sha256"
+	"encoding/hex"
 	"errors"
 	"fmt"
 	"io"
@@ -58,6 +60,8 @@ type Action struct {
 type Registry struct {
 	mu    sync.Mutex
 	blobs map[string][]byte
+	ctype map[string]string // digest -> Content-Type (manifests)
+	tags  map[string]string // "<repo>:<tag>" -> digest
 	log   []Req
 	// Decide is consulted for every request (with the lock released); nil = default behaviour.
 	Decide func(r *Req) Action
@@ -90,6 +94,25 @@ func (r *Registry) AddBlob(dgst string, b []byte) {
 	r.mu.Lock()
 	defer r.mu.Unlock()
 	r.blobs[dgst] = b
+}
+
+// AddManifest registers a manifest (or index) under its digest with a Content-Type and, when tag != "",
+// makes /v2/<repo>/manifests/<tag> resolve to it.
+func (r *Registry) AddManifest(repo, tag, mediaType string, b []byte) string {
+	sum := sha256.Sum256(b)
+	dgst := "sha256:" + hex.EncodeToString(sum[:])
+	r.mu.Lock()
+	defer r.mu.Unlock()
+	r.blobs[dgst] = b
+	if r.ctype == nil {
+		r.ctype = map[string]string{}
+		r.tags = map[string]string{}
+	}
+	r.ctype[dgst] = mediaType
+	if tag != "" {
+		r.tags[repo+":"+tag] = dgst
+	}
+	return dgst
 }
 
 // SetDown makes every request fail with a connection error (true) or work again (false).
@@ -158,6 +181,10 @@ func (r *Registry) RoundTrip(req *http.Request) (*http.Response, error) {
 		rq.Digest = req.URL.Path[i+1:]
 	}
 	r.mu.Lock()
+	if i := strings.LastIndex(req.URL.Path, "/manifests/"); i >= 0 && rq.Digest == "" && strings.HasPrefix(req.URL.Path, "/v2/") {
+		rq.Digest = r.tags[req.URL.Path[len("/v2/"):i]+":"+req.URL.Path[i+len("/manifests/"):]]
+	}
+	ctype := r.ctype[rq.Digest]
 	rq.Seq = len(r.log)
 	down := r.down
 	blob, okBlob := r.blobs[rq.Digest]
@@ -208,6 +235,10 @@ func (r *Registry) RoundTrip(req *http.Request) (*http.Response, error) {
 		resp := simple(req, http.StatusOK, nil)
 		resp.Header.Set("Content-Length", strconv.FormatInt(size, 10))
 		resp.ContentLength = size
+		if ctype != "" {
+			resp.Header.Set("Content-Type", ctype)
+			resp.Header.Set("Docker-Content-Digest", rq.Digest)
+		}
 		return resp, nil
 	}
 	if req.Method != http.MethodGet {
@@ -220,6 +251,10 @@ func (r *Registry) RoundTrip(req *http.Request) (*http.Response, error) {
 		// (an empty blob answers 200 to a ranged request, like Go's http.ServeContent does)
 		resp = simple(req, http.StatusOK, blob)
 		resp.Header.Set("Content-Length", strconv.FormatInt(size, 10))
+		if ctype != "" {
+			resp.Header.Set("Content-Type", ctype)
+			resp.Header.Set("Docker-Content-Digest", rq.Digest)
+		}
 	case len(rs) == 0:
 		resp = simple(req, http.StatusRequestedRangeNotSatisfiable, nil)
 		resp.Header.Set("Content-Range", fmt.Sprintf("bytes */%d", size))
